@@ -530,6 +530,41 @@ class Program:
                 G = self.get(t, None)
                 out.append(self.key(G) if G is not None else 'ext:' + t)
             return out or [f'unk:param:{cal.get("name")}']
+        if 'var' in cal:
+            # a call through a local function pointer: follow the local's only definition (`int (*const seek)(..)=vf->callbacks.seek_func`)
+            vid = cal['var']
+            inits, other = [], 0
+            for m, md in F.ex.items():
+                if md['k'] == 'decl':
+                    for v in md.get('vars', ()):
+                        if v.get('id') == vid and v.get('init'):
+                            inits.append(v['init'])
+                elif md['k'] == 'assign':
+                    l = F.ex[F.strip_casts(md['c'][0])]
+                    if l['k'] == 'ref' and l['decl'].get('id') == vid:
+                        if md.get('op') == '=':
+                            inits.append(md['c'][1])
+                        else:
+                            other += 1
+                elif md['k'] == 'un' and md.get('op') == '&':
+                    l = F.ex[F.strip_casts(md['c'][0])]
+                    if l['k'] == 'ref' and l['decl'].get('id') == vid:
+                        other += 1
+            if len(inits) == 1 and not other:
+                d = F.ex[F.strip_casts(inits[0])]
+                while d['k'] == 'paren':
+                    d = F.ex[F.strip_casts(d['c'][0])]
+                if d['k'] == 'member' and d.get('record') == 'ov_callbacks':
+                    return ['cb:' + d['field']]
+                if d['k'] == 'member' and self.slots.get((d.get('record'), d.get('field'))):
+                    out = []
+                    for t in sorted(self.slots[(d['record'], d['field'])]):
+                        G = self.get(t, None)
+                        out.append(self.key(G) if G is not None else 'ext:' + t)
+                    return out
+                if d['k'] == 'ref' and d['decl'].get('kind') == 'func':
+                    G = self.get(d['decl'].get('name'), F)
+                    return [self.key(G)] if G is not None else ['ext:' + d['decl'].get('name', '?')]
         return ['unk:' + F.s(nd.get('fnexpr', 0))]
 
     def reachable(self, roots):
